@@ -360,7 +360,7 @@ def run(tier="quick", seed=0):
                     continue
                 combos.append(ways)
             for ways in combos:
-                for rep in range(16 if thorough else 4):
+                for rep in range(48 if thorough else 4):
                     depth = rng.randrange(0, 4) if rep else 3
                     blocks = [{} for _ in range(depth)]
                     for n in cparams:
@@ -638,7 +638,7 @@ def run(tier="quick", seed=0):
                 viol.append(found[clause][rank][2])
     return {"name": "c18_context", "evaluations": ev, "distinct_nontrivial": len(distinct),
             "rule": ("layers %r. M: every decorated method of MachineController and BMPController found by introspection (%d driven, %d skipped) x every way of passing each of its "
-                     "contextual arguments (positional where the prefix rule allows / keyword / from a block / left to the default) x 4 (thorough 16) drawn nestings of 0..3 blocks with shadowed "
+                     "contextual arguments (positional where the prefix rule allows / keyword / from a block / left to the default) x 4 (thorough 48) drawn nestings of 0..3 blocks with shadowed "
                      "values, decoys an explicit value must beat and arguments the method does not take; oracle = own resolution + datagrams of the undecorated function given the resolved values on a context-free controller + destination fields. "
                      "N: every nesting of <= 3 blocks over the 16 subsets of {x,y,p,app_id} or an application block x left normally / by an exception raised in the body of any "
                      "level (after deeper blocks were left normally) and caught around any level above it (probe commands at depth 3: %s); get_context_arguments and a probe command (send_scp / sdram_alloc / write in rotation) inside every block, after every "
